@@ -8,7 +8,7 @@ AUX = ('cmds differs',)
 
 ASSUMPTIONS = [
     "`assembly` output is observed in --minimal mode (the statement's text); the fancy context rendering of the non-minimal mode is miette's and not modelled",
-    "label names avoid spellings the command language reads as numbers/registers (x1, b1, o7, r3)",
+    "label names avoid spellings the command language reads as numbers or as a register (x1, b1, o7, r3); register-LIKE labels (r10, R00, r8, r1a, r77x) are included",
 ]
 
 PROGS = [
@@ -26,9 +26,12 @@ PROGS = [
     "ADD R0 R0 #1\nPuts\nHALT\n",
     "l_one jsr l_two\nhalt\nl_two ret\n",
     "\tadd\tr0\tr0\t#1\r\n\thalt\r\n",
+    # labels that LOOK like a register followed by more (only r0..r7 alone are registers, for assembler and debugger alike)
+    "lea r0 r10\nputs\nld r1 r25\nhalt\nr10 .stringz \"hi\"\nr25 .fill x1234\nR00 add r1 r1 #1\nr8 halt\nr1a halt\nr77x halt\nr0_ halt\n",
 ]
 LABELS = ["start", "first", "second", "third", "msg", "after", "main", "tbl", "end_", "alpha", "beta", "gamma", "high", "higher",
-          "first_", "mid", "last_", "s", "t", "u", "l_one", "l_two", "nothere", "Start"]
+          "first_", "mid", "last_", "s", "t", "u", "l_one", "l_two", "nothere", "Start",
+          "r10", "r25", "R00", "r8", "r1a", "r77x", "r0_"]
 
 
 def gen(tier, seed):
